@@ -9,7 +9,12 @@
  * The driver (vlib/sigthread.py) therefore knows in which phase every target is when it sends a signal with kill(2),
  * and how many seconds lie between two signals: nothing is decided by sleeping.
  *
- *   sigthread_harness <evfd> <cmdfd> <fanout> <N> <batch 0|1> <S 0|1>
+ *   sigthread_harness <evfd> <cmdfd> <fanout> <N> <batch 0|1> <S 0|1> [<inherited>]
+ * <inherited>: what pdsh finds when it is started -- any of  i SIGINT ignored | z SIGTSTP ignored | I SIGINT blocked |
+ *              Z SIGTSTP blocked  (`pdsh ... &` from a script, nohup-like wrappers, trap '' INT, pdsh's own prompt mode:
+ *              main.c sets SIGINT to SIG_IGN before it forks the run of each typed command); default: default dispositions,
+ *              nothing blocked.  The property does not depend on it: dsh() blocks both signals in every thread and takes
+ *              them with sigwait(), which also dequeues a signal whose disposition is SIG_IGN.
  * events (written to evfd, one line each):  C<i> connect entered | R<i> connect returned | F<i> <signo> rcmd_signal |
  *                                           D<i> rcmd_destroy | T<v> clock set | X dsh() returned <rc>
  * commands (read from cmdfd):               c<i> let the connect of target i return | e<i> end the command of target i
@@ -164,6 +169,12 @@ int main(int argc, char **argv)
     pthread_sigmask(SIG_BLOCK, &all, &old);
     pthread_create(&th, NULL, reader, NULL);
     sigemptyset(&old);
+    if (argc > 7) {
+        if (strchr(argv[7], 'i')) signal(SIGINT, SIG_IGN);
+        if (strchr(argv[7], 'z')) signal(SIGTSTP, SIG_IGN);
+        if (strchr(argv[7], 'I')) sigaddset(&old, SIGINT);
+        if (strchr(argv[7], 'Z')) sigaddset(&old, SIGTSTP);
+    }
     pthread_sigmask(SIG_SETMASK, &old, NULL);
 
     memset(&opt, 0, sizeof(opt));
